@@ -147,6 +147,16 @@ class Oracle:
                         fam = None  # the genuine-message clauses speak about payloads, not about this wrapping
                     else:
                         msg = DlmsMessage(data)
+                if isinstance(msg, DlmsMessage) and 0 < len(data) <= 2000 and (step + pi + len(hist)) % 3 == 1:
+                    # the payload as information field of an HDLC frame object; frames of different meters come from different source
+                    # addresses (one AutoDecoder behind a multi-drop line) - the address is not part of what is decoded
+                    src = {"Aidon": b"\x21", "Kaifa": b"\x02\x23", "Kamstrup": b"\x10\x21", "P1": b"\x41"}.get(fam, bytes((0x02, ((pi * 2) % 254) | 1)))
+                    octs = hdlc_ref.build(0xA, False, b"\x03", src, 0x13, data)
+                    stuffing = 0x7E in octs
+                    got_frames = hdlc_mon.new_reader((stuffing, False)).read(b"\x7e" + (hdlc_ref.stuff(octs) if stuffing else octs) + b"\x7e")
+                    if len(got_frames) == 1 and got_frames[0].payload == data:
+                        msg = got_frames[0]
+                        self.ctx.count("steps_given_as_an_HDLC_frame_object")
                 res, exc, _ = self.budget.call(lambda: dec.decode_message(msg), 50_000 + 2_000 * len(data))
             self.ctx.count("autodecoder_calls_checked")
             if exc is not None:
